@@ -27,7 +27,7 @@ from .. import x_sre
 from ..x_emit import emissions, PH
 from ..x_valuewalk import alias_expand, xdotted, xunparse, branch_flag, iter_order, always_raises, noreturn_cfg, walk, value_oracle, single_assignment, dict_literal, const_collection
 
-TECHNIQUE = "per-operator constant-folded walk of the directive dispatch on the CFG + exception-class closure + emitted-line event ordering + regex-AST class check + exhaustive evaluation of the extracted whitespace-substitution pipeline over all whitespace runs up to length 4 (class representatives; regex semantics = stdlib re, tornado is not executed)"
+TECHNIQUE = "per-operator constant-folded walk of the directive dispatch on the CFG + exception-class closure + emitted-line event ordering + regex-AST class check + constant folding of the whitespace-substitution pipeline (pattern constants extracted from the source, through locals and module-level compiled regexes) over a bounded domain: every whitespace run up to length 4 over class representatives"
 EXPLANATION = (
     "tornado/template.py: (1) call closure from _parse: every raise statement constructs ParseError, foreign raises only behind a handler/guard; "
     "raise_parse_error passes reader.name/reader.line and never returns; consume() counts newlines before moving pos. "
